@@ -473,6 +473,9 @@ func main() {
 		clause := f.clause
 		if clause == "crash" || clause == "deadlock" {
 			clause = "C11.send"
+			if strings.HasPrefix(f.scenario, "reopen") {
+				clause = "C11.reopen"
+			}
 		}
 		vios[clause+"|"+f.key] = &vio{Clause: clause, Key: f.key, Count: 1,
 			Detail: fmt.Sprintf("%s [scenario %s, schedule trace %v]", f.detail, f.scenario, f.trace),
@@ -514,6 +517,7 @@ func main() {
 		"C11.retain applies to StreamFace.Run only: the reader/wire handed to onPkt is kept without copying and compared again after the whole stream was delivered, because the application engine retains the raw wire of packets (fresh buffer per block is part of that face's contract). readTlvStream reuses its buffer by design and documents the callback slice as valid during the call only, so there the comparison stays inside the callback.",
 		"Environment answers of the scripted reader: a short read may be plain, followed by a (0, nil) read, returned TOGETHER with an error, or followed by a read that returns only that error. The error is a connected UDP socket's 'read udp: recvfrom: connection refused' and readTlvStream is then given the predicate that unicast-udp-transport.go and multicast-udp-transport.go pass (strings.Contains(err.Error(), \"connection refused\"); the check verifies that both files still contain it); without such an answer readTlvStream gets a nil predicate, as the TCP and Unix transports call it. The error-with-data answer is never the last read of a stream (readTlvStream parses only after an error-free read, and sockets that report this error never report EOF).",
 		"C11.send: std/engine/face is rebuilt with sync and sync/atomic redirected to the cooperative scheduler (mc/sched); the scheduling points are every mutex/atomic operation of StreamFace.Send and every Write of the fake connection; all interleavings of 2-3 sender threads (wires of 1-3 segments) with <= 2 (thorough 3) preemptions are executed and the written bytes must split into exactly the blocks sent. Unsynchronised accesses are invisible to a cooperative scheduler: the same bodies also run free under the Go race detector (send_race_pass, sampled, auxiliary).",
+		"C11.reopen: same scheduler, lifecycle scenario on the real StreamFace: the first session's Run loop (its onPkt callback yields), the application calling Close() and then the real Open() at once (retrying once the old loop has ended if Open refuses), and the goroutine Open starts. Open dials a Unix socket the harness listens on; the dialled connection is replaced by a scripted one through a hook before any other thread can run. Once Open returned nil every block of the new stream must be delivered exactly once in order. A refusal of the immediate Open ('face is already running') is accepted.",
 		"A Read with an empty buffer is answered (0, nil) as sockets do; more than 4 of those, or more Read calls than bytes+deviations+8, is reported as non-termination (step counter, no wall clock).",
 	})
 }
